@@ -31,7 +31,7 @@ CHECKS = {
         category="proof",
         text="Every member function of the REAL FeatureChecker (constructor, visitTemplateBefore, visitVariable, visitEdge, visitGuard, visitAssignment, visitLocation, isRateDisallowedInSymbolic, visitFrame) and the REAL expression_t::uses_fp/uses_hybrid/uses_clock are executed one level deep on symbolic nodes whose children carry arbitrary ghost summaries; postconditions are the statement's conditions (fp comparison anywhere in a guard/invariant, fp assignment without hybrid in any update-list element, fp clock initialiser, non-0/1 rate of a non-hybrid clock in any conjunct, dynamic templates, priorities, non-broadcast channels), plus monotonicity (flags are only ever cleared => order independence) and the uninstantiated-template gate. Unbounded in tree depth (induction step), arity <= 4.",
         design_ref="DESIGN.md section 4, C17",
-        note="Trusted: flat type abstraction, expression arena stub (get_value/get_double_value carry the real asserts), induction over tree height, Document::accept's traversal (visitTemplate's gate checked structurally), DocumentVisitor dispatch. Not decided: clock arrays with fp initialisers, arrays of channels and template-local channels (outside the flat abstraction / not visited by visitFrame).",
+        note="Trusted: flat type abstraction, expression arena stub (get_value/get_double_value carry the real asserts), induction over tree height, Document::accept's traversal (visitTemplate's gate checked structurally), DocumentVisitor dispatch. Arrays of clocks/channels are covered to nesting depth 1 (bounded in that dimension).",
         technique="one-level induction step per visitor on sliced real code with ghost summaries, assume/call/assert harness in CBMC; native replay through parse_XTA + get_supported_methods",
     ),
 }
